@@ -41,6 +41,10 @@ SUMMARY = {
 'c08j':'new trait method stream_lookbehind_len, overridden by the noncontiguous NFA with its (0-based, one too small) state depth: the pre-roll flush hands out the first byte of a match that straddles a refill (noncontiguous NFA only)',
 'c17l':'noncontiguous NFA keeps a shared (index, link) cursor in an AtomicU64 for match_pattern: any other search between two steps of an overlapping search makes it report wrong pattern ids',
 'c18k':'the table entry point runs its own loop `while let Some(Ok(chunk))`: a read error ends replacement quietly with Ok(())',
+'c07m':'two cooperating edits: fill() returns after the first non-empty read, and roll() became total while its call site dropped the len>=min guard but kept buffer_pos=min: first reads shorter than the longest pattern skip unsearched bytes',
+'c08m':'two cooperating edits spending the same byte of slack: roll retains max-1 bytes and the pre-roll flush goes one byte further',
+'c17m':'two cooperating edits: shared prefilter-effectiveness counters (only PossibleStartOfMatch candidates count) plus the packed prefilter returning PossibleStartOfMatch(span.start) for spans shorter than its minimum length: ~40 tiny searches switch the packed prefilter off for all clones, earliest(true) answers change',
+'c18m':'two cooperating edits: fill() defers an error that follows a partial fill to the next call, and the chunk iterator takes a short Ok(true) fill for EOF: the deferred error is never delivered',
 'c18a':'fill returns Ok(true) instead of the error when it had already buffered bytes in the same call: one-shot read errors during the initial fill vanish',
 'c18b':'closure errors of kind Interrupted are retried by calling the closure again: error swallowed, partial output duplicated',
 'c18c':'fill commits its new end only after the loop: an error on a later read of one fill discards bytes accepted earlier; polling on shifts all later offsets',
@@ -58,6 +62,8 @@ for line in sorted(open(os.path.join(ROOT, 'mutants/RESULTS-seeded.txt'))):
     m = re.search(r'\| (C\d\d) exit=(\d) class=(\S+) replay_exit=(\S+)', line)
     if not m: continue
     engine = {'C07': 'streamsim', 'C08': 'streamsim', 'C18': 'streamsim fault enumeration', 'C17': 'threadsim'}[m.group(1)]
+    if name == 'c17m':
+        engine = 'threadsim (after adding packed-prefilter-friendly leftmost searchers and a probe suffix to every history; first missed in quick, found at 10x scale)'
     if name == 'c17k':
         engine = 'threadsim (after adding sparse multi-kilobyte haystack pairs through a reused buffer; first missed: no haystack had a 4 KiB gap without pattern bytes)'
     if name == 'c08h':
